@@ -1166,11 +1166,20 @@ func (g *gen) fragHistory(length int, boots bool) {
 			}
 		case x < 31:
 			if ks := sortedMapKeys(w.ccs); len(ks) > 0 {
-				g.do("ccDel " + ks[rng.Intn(len(ks))])
+				c := ks[rng.Intn(len(ks))]
+				if boots {
+					// the fragment with restarts: deleted only once the controller's finalizer is on it, or before the
+					// controller has seen it at all (finding P15 otherwise)
+					_, cached, _ := w.ccInf.inf.indexer.GetByKey(c)
+					if !contains(w.ccs[c].Finalizers, finalizer) && cached {
+						break
+					}
+				}
+				g.do("ccDel " + c)
 			}
 		case x < 33:
 			if ks := sortedMapKeys(w.ccs); len(ks) > 0 {
-				if rng.Intn(2) == 0 {
+				if rng.Intn(2) == 0 && !boots {
 					g.do(fmt.Sprintf("ccGen %s 2", ks[rng.Intn(len(ks))]))
 				} else {
 					g.do(fmt.Sprintf("ccAddFin %s example.com/other", ks[rng.Intn(len(ks))]))
